@@ -465,6 +465,9 @@ func (g *Gen) callStatic(st *BState, in ssa.Instruction, callee *ssa.Function, a
 	if con != nil {
 		g.bindLets(con, env)
 		for _, r := range con.Requires {
+			if r.Assumed {
+				continue
+			}
 			t := g.trBool(r.Expr, env, r)
 			if guard != "true" {
 				t = fmt.Sprintf("(=> %s %s)", guard, t)
@@ -493,6 +496,9 @@ func (g *Gen) callStatic(st *BState, in ssa.Instruction, callee *ssa.Function, a
 		nf := len(g.fatal)
 		g.touched = map[string]bool{}
 		for _, e := range con.Ensures {
+			if usesInternals(e.Expr, con) {
+				continue
+			}
 			g.trBool(e.Expr, scratch, e)
 		}
 		g.fatal = g.fatal[:nf]
@@ -584,6 +590,9 @@ func (g *Gen) callStatic(st *BState, in ssa.Instruction, callee *ssa.Function, a
 		g.bindLets(con, penv)
 		g.bindResults(penv, callee, rterms, rtypes)
 		for _, e := range con.Ensures {
+			if usesInternals(e.Expr, con) {
+				continue // speaks about the callee's own intermediate calls: not visible to callers
+			}
 			t := g.trBool(e.Expr, penv, e)
 			if guard != "true" {
 				t = fmt.Sprintf("(=> %s %s)", guard, t)
@@ -1140,4 +1149,53 @@ func (g *Gen) unconstrainedResults(st *BState, sig *types.Signature, v ssa.Value
 			g.tuples[v] = rterms
 		}
 	}
+}
+
+// usesInternals: the clause mentions a bind name of the contract or a call label (reached/at/pre).
+func usesInternals(e CExpr, con *Contract) bool {
+	found := false
+	var walk func(x CExpr)
+	walk = func(x CExpr) {
+		if found || x == nil {
+			return
+		}
+		switch x := x.(type) {
+		case *CIdent:
+			for _, b := range con.Binds {
+				if b.Name == x.Name {
+					found = true
+				}
+			}
+		case *CUnary:
+			walk(x.X)
+		case *CBinary:
+			walk(x.X)
+			walk(x.Y)
+		case *CCall:
+			if x.Fn == "reached" || x.Fn == "at" || x.Fn == "pre" {
+				found = true
+				return
+			}
+			for _, a := range x.Args {
+				walk(a)
+			}
+		case *CField:
+			walk(x.X)
+		case *CIndex:
+			walk(x.X)
+			walk(x.I)
+		case *CSlice:
+			walk(x.X)
+			walk(x.Lo)
+			walk(x.Hi)
+		case *CCond:
+			walk(x.C)
+			walk(x.A)
+			walk(x.B)
+		case *CQuant:
+			walk(x.Body)
+		}
+	}
+	walk(e)
+	return found
 }
